@@ -43,6 +43,9 @@ fn panic_violation(rec: &OpRecord, w: &World, phase: &str) -> Option<Violation> 
 
 impl Monitor for Mon {
     fn after_op(&mut self, w: &mut World, rec: &OpRecord, stats: &mut RunStats) -> Option<Violation> {
+        if let Some((_, detail, msg)) = take_stack_alert(w, &["hang"]) {
+            return Some(Violation::new("C04.chip-hang", &detail, format!("full stack (real lora-phy on a simulated chip): {msg}")));
+        }
         stats.nontrivial = true;
         if !rec.result.is_panic() {
             if let Some(s) = w.dut.snapshot() {
@@ -340,6 +343,7 @@ impl C04 {
         }
         let mut r = Rng::new(run_seed(seed, "C04", run));
         let mut cfg = gen_cfg(&mut r, &CfgProfile { frontends: ALL_FRONTENDS, otaa_pct: 50, boundary_counters_pct: 20, join_bias_pct: 50 });
+        maybe_phy(&mut r, &mut cfg, 1, 10);
         if r.chance(1, 10) {
             // a device built with a radio buffer smaller than the largest frame
             cfg.small_buffer = true;
